@@ -169,6 +169,9 @@ func c12serve(gw *gatewayUnderTest, reqs []c12req, order []int, concurrent bool)
 			stray = append(stray, fmt.Sprintf("downstream call to %s carries an unknown tag %q", rec.URL, tags[0]))
 			continue
 		}
+		if ck := rec.Headers.Values("Cookie"); len(ck) > 0 { // no client request carries a cookie
+			stray = append(stray, fmt.Sprintf("downstream call of request %s carries Cookie %v, which no client sent", tags[0], ck))
+		}
 		if want := reqs[i].hdr["X-Fwd-Color"]; strings.Join(rec.Headers.Values("X-Fwd-Color"), ",") != want {
 			stray = append(stray, fmt.Sprintf("downstream call of request %s carries X-Fwd-Color %v, the client sent %q", tags[0], rec.Headers.Values("X-Fwd-Color"), want))
 		}
@@ -184,14 +187,17 @@ func runC12(cfg runCfg) error {
 	type envPair struct{ plain, cached *e2eEnv }
 	var envs []envPair
 	for _, fx := range fixtures {
-		a, err := newEnv(fx, gwOpts{maxRequests: 50})
+		// the query client is the one bramble builds for itself, as in a deployed gateway; the services answer with a cookie
+		// naming the client request they served
+		a, err := newEnv(fx, gwOpts{maxRequests: 50, ownClient: true})
 		if err != nil {
 			return err
 		}
-		b, err := newEnv(fx, gwOpts{maxRequests: 50, extraPlugins: []bramble.Plugin{&cachePlugin{}}})
+		b, err := newEnv(fx, gwOpts{maxRequests: 50, ownClient: true, extraPlugins: []bramble.Plugin{&cachePlugin{}}})
 		if err != nil {
 			return err
 		}
+		a.world.cookies, b.world.cookies = true, true
 		envs = append(envs, envPair{a, b})
 		w.preamble += a.preamble()
 	}
@@ -274,8 +280,8 @@ func runC12(cfg runCfg) error {
 		// alone: a fresh instance per request
 		alone := make([]c12obs, len(reqs))
 		for i := range reqs {
-			world := &simWorld{fed: env.fed, data: data}
-			o := gwOpts{maxRequests: 50}
+			world := &simWorld{fed: env.fed, data: data, cookies: true}
+			o := gwOpts{maxRequests: 50, ownClient: true}
 			if withCache {
 				o.extraPlugins = []bramble.Plugin{&cachePlugin{}}
 			}
